@@ -198,6 +198,15 @@ Theorem C13_implicit_bin_partial :
 Proof. exact implicit_bin_output. Qed.
 Print Assumptions C13_implicit_bin_partial.
 
+(* an explicit -o is written whatever --implicit-bin says, after the directives' files *)
+Theorem C13_o_option_written_partial :
+  forall first emitted_list o implicit_bin, existsb e_error emitted_list = false ->
+  cli_outputs first emitted_list (Some o) implicit_bin =
+  Some (map (fun e => {| o_dest := ToFile (e_path e); o_format := e_format e; o_tape_name := e_name e |}) emitted_list
+        ++ [o_option_output o]).
+Proof. exact o_option_written. Qed.
+Print Assumptions C13_o_option_written_partial.
+
 (* ------------------------------------------------------------------ non-vacuity *)
 (* 257 x 0xFF sums to 65535: the checksum is 0xFFFF *)
 Example C13_checksum_257_ff : checksum (repeat 255 257) = Ok 65535 /\ zsum (repeat 255 257) = 65535.
